@@ -20,6 +20,7 @@ import (
 	"bytes"
 	"fmt"
 	"reflect"
+	"runtime/debug"
 	"strings"
 
 	"github.com/bluenviron/gortsplib/v5/pkg/description"
@@ -47,10 +48,26 @@ func implMarshal(d *description.Session) (out []byte, code int) {
 	return b, 1
 }
 
+// panicInfo: the panic value and the stack at the point of recovery (used to classify)
+type panicInfo struct {
+	v     any
+	stack string
+}
+
+func (p panicInfo) String() string { return fmt.Sprint(p.v) }
+
+// panicClass recognises the known panic shapes by the function that raised them
+func panicClass(pv any) string {
+	if p, ok := pv.(panicInfo); ok && strings.Contains(p.stack, "mpeg4video.IsValidConfig") {
+		return "sdp-parse-panic-mpeg4video-config"
+	}
+	return "sdp-parse-panic"
+}
+
 func implSDP(text []byte) (s *sdp.SessionDescription, code int, pv any) {
 	defer func() {
 		if r := recover(); r != nil {
-			s, code, pv = nil, 77, r
+			s, code, pv = nil, 77, panicInfo{r, string(debug.Stack())}
 		}
 	}()
 	s, err := sdpunmarshaler.Unmarshal(text)
@@ -63,7 +80,7 @@ func implSDP(text []byte) (s *sdp.SessionDescription, code int, pv any) {
 func implUnmarshal2(s *sdp.SessionDescription) (d *description.Session, code int, pv any) {
 	defer func() {
 		if r := recover(); r != nil {
-			d, code, pv = nil, 77, r
+			d, code, pv = nil, 77, panicInfo{r, string(debug.Stack())}
 		}
 	}()
 	var x description.Session
@@ -81,18 +98,18 @@ func implParse(text []byte) (*description.Session, int, any) {
 	return implUnmarshal2(s)
 }
 
-func implFormat(media, pt string, attrs []sdp.Attribute) (f format.Format, code int) {
+func implFormat(media, pt string, attrs []sdp.Attribute) (f format.Format, code int, pv any) {
 	defer func() {
 		if r := recover(); r != nil {
-			f, code = nil, 77
+			f, code, pv = nil, 77, panicInfo{r, string(debug.Stack())}
 		}
 	}()
 	md := &sdp.MediaDescription{MediaName: sdp.MediaName{Media: media, Protos: []string{"RTP", "AVP"}, Formats: []string{pt}}, Attributes: attrs}
 	f, err := format.Unmarshal(md, pt)
 	if err != nil {
-		return nil, 0
+		return nil, 0, nil
 	}
-	return f, 1
+	return f, 1, nil
 }
 
 // ---------- field-wise comparison (the property's notion of "equal description") ----------
@@ -286,7 +303,7 @@ func checkWF(d *description.Session, label string) []byte {
 		if pc != 1 {
 			cls := "sdp-roundtrip-parse-error"
 			if pc == 77 {
-				cls = "sdp-parse-panic"
+				cls = panicClass(pv)
 			}
 			ctx.Failf(idx, cls, caseLine, "own SDP rejected (code %d %v): %q", pc, pv, clip(string(text)))
 			return text
@@ -343,7 +360,7 @@ func checkText(text []byte, label string, corr bool) {
 		}
 	}
 	if sc == 77 {
-		ctx.Failf(-1, "sdp-parse-panic", input, "sdpunmarshaler.Unmarshal panicked: %v", pv)
+		ctx.Failf(-1, panicClass(pv), input, "sdpunmarshaler.Unmarshal panicked: %v", pv)
 		return
 	}
 	if sc != 1 {
@@ -352,7 +369,9 @@ func checkText(text []byte, label string, corr bool) {
 	}
 	table := tableForSDesc(s)
 	d1, dc, pv := implUnmarshal2(s)
-	if corr && inModel && sdescInModel(s) {
+	// an external parser that panics is outside the model (ext functions are total): such inputs are
+	// left to the totality oracle below
+	if corr && inModel && sdescInModel(s) && !table.extPanic {
 		out, ok := resLine(dc, func(l *hx.L) { pSessionObs(l, d1) })
 		if ok {
 			ctx.Corr(textCase(5, text, table), out)
@@ -362,7 +381,7 @@ func checkText(text []byte, label string, corr bool) {
 		}
 	}
 	if dc == 77 {
-		ctx.Failf(-1, "sdp-parse-panic", input, "Session.Unmarshal2 panicked: %v", pv)
+		ctx.Failf(-1, panicClass(pv), input, "Session.Unmarshal2 panicked: %v", pv)
 		return
 	}
 	if dc != 1 {
@@ -397,7 +416,7 @@ func checkText(text []byte, label string, corr bool) {
 	if rc != 1 {
 		cls := "sdp-reparse-rejected"
 		if rc == 77 {
-			cls = "sdp-parse-panic"
+			cls = panicClass(pv)
 		}
 		ctx.Failf(-1, cls, input, "marshal of an accepted description is rejected by the parser (code %d %v): %q", rc, pv, clip(string(t2)))
 		return
@@ -567,7 +586,7 @@ func checkFormat(media, pt string, attrs []sdp.Attribute) {
 	ctx.Eval()
 	var first string
 	for k := 0; k < nparse; k++ {
-		f, code := implFormat(media, pt, attrs)
+		f, code, pv := implFormat(media, pt, attrs)
 		out, ok := resLine(code, func(l *hx.L) { pFmtObs(l, f) })
 		if !ok {
 			return
@@ -580,20 +599,21 @@ func checkFormat(media, pt string, attrs []sdp.Attribute) {
 			} else {
 				ctx.Kind("format-case/rejected")
 			}
+			t := &otable{}
+			t.scanAttrs(attrs)
 			c, okc := encode(func(l *hx.L) {
 				l.N(4)
 				pStr(l, media)
 				pStr(l, pt)
 				pAttrs(l, attrs)
-				t := &otable{}
-				t.scanAttrs(attrs)
 				t.write(l)
 			})
-			if okc && attrsInModel(attrs) && isASCII(pt) {
-				idx := ctx.Corr(c, out)
-				if code == 77 {
-					ctx.Failf(idx, "sdp-parse-panic", c, "format.Unmarshal panicked")
-				}
+			idx := -1
+			if okc && attrsInModel(attrs) && isASCII(pt) && !t.extPanic {
+				idx = ctx.Corr(c, out)
+			}
+			if code == 77 {
+				ctx.Failf(idx, panicClass(pv), c, "format.Unmarshal panicked: %v", pv)
 			}
 		} else if out != first {
 			c, _ := encode(func(l *hx.L) { l.N(4); pStr(l, media); pStr(l, pt); pAttrs(l, attrs); l.N(0) })
@@ -606,6 +626,9 @@ func checkFormat(media, pt string, attrs []sdp.Attribute) {
 // ---------- corpus: known findings first ----------
 
 var corpusTexts = []struct{ name, text string }{
+	// mediacommon mpeg4video.IsValidConfig indexes config[pos+3] one past the end when the configuration
+	// ends with a start-code prefix 00 00 01: MPEG4Video.unmarshal panics (client DESCRIBE / server ANNOUNCE)
+	{"mpeg4video-config-ends-with-startcode-prefix", "v=0\r\ns= \r\nt=0 0\r\nm=video 0 RTP/AVP 96\r\na=rtpmap:96 MP4V-ES/90000\r\na=fmtp:96 config=000001B001000001\r\n"},
 	// Generic format: a value ending in a tab is kept while it is followed by another pair, but the
 	// re-marshalled attribute sorts the keys, the pair becomes the last one and TrimSpace drops the tab
 	{"generic-fmtp-trailing-tab", "v=0\r\ns= \r\nt=0 0\r\nm=application 0 RTP/AVP 98\r\na=rtpmap:98 custom/90000\r\na=fmtp:98 z=y\t; b=x\r\n"},
